@@ -3,7 +3,7 @@
 package redis
 
 // C11 (session 5): the slot-USING sites of the cluster client driven dynamically: the node getNodeByKey chooses, the
-// slot pinBatchRoute files a batch under, the slot and node a transaction batch (txnBatcher.Put) records, and which
+// node batch a command lands in and the per-slot pin across a slot-map refresh (through Batch.Put), the slot and node a transaction batch (txnBatcher.Put) records, and which
 // second command it admits - against the independent bitwise HASH_SLOT. Every slot has its own node (address = slot),
 // so a wrong slot is a wrong node. Harness entry C11route. (multiSet / multiGet have no caller in the repository.)
 
@@ -94,17 +94,10 @@ func TestVerifC11route(t *testing.T) {
 		if e1 != nil || e2 != nil || addr(n1) != int(want) || addr(n2) != int(want) {
 			viol("getNodeByKey", key, addr(n1), want, fmt.Sprintf(" (string form: %d; errors %v %v)", addr(n2), e1, e2))
 		}
-		// pinBatchRoute: the slot the batch is filed under
-		routes := map[uint16]*redisNode{}
-		pin := pinBatchRoute(routes, n1, []string{string(key)})
-		if _, ok := routes[want]; !ok || len(routes) != 1 || pin != n1 {
-			got := -1
-			for k := range routes {
-				got = int(k)
-			}
-			viol("pinBatchRoute", key, got, want, "")
-		}
-		// a later command of the same slot is pinned to the first node, one of another slot is not
+		// the batch pin, observed through Batch.Put (not by calling the unexported helper: its signature is the code's
+		// business): the first command lands in the node batch of HASH_SLOT(key); then the slot map is "refreshed" (the
+		// slot moves to another node, as handleUpdate does between two Puts) and a second command follows: one of the SAME
+		// slot stays in the first node's batch, one of another slot goes to its own slot's node
 		key2 := vfC11AdvKey(r)
 		if r.Chance(1, 2) {
 			if s0 := bytes.IndexByte(key, '{'); s0 >= 0 {
@@ -114,10 +107,25 @@ func TestVerifC11route(t *testing.T) {
 			}
 		}
 		same := vfC11Slot(key2) == want
-		other := &redisNode{address: "other"}
-		if got := pinBatchRoute(routes, other, []string{string(key2)}); (got == n1) != same {
-			s.Violate("site-pair", fmt.Sprintf("pinBatchRoute: after %q, %q pinned to the first node = %v, the keys share HASH_SLOT = %v", key, key2, got == n1, same),
-				map[string]interface{}{"site": "pinBatchRoute", "key_hex": hx, "key2_hex": vfutil.Hex(key2), "pinned": got == n1, "same_slot": same})
+		bt := &Batch{cluster: c}
+		if err := bt.Put("SET", key, []byte("v")); err != nil || len(bt.index) != 1 {
+			s.Violate("site-unit-refused", fmt.Sprintf("Batch.Put refused SET %q: %v", key, err), map[string]interface{}{"site": "Batch.Put", "key_hex": hx})
+		} else {
+			first := bt.batches[bt.index[0]].node
+			if addr(first) != int(want) {
+				viol("Batch.Put", key, addr(first), want, "")
+			}
+			moved := &redisNode{address: "-2"}
+			c.slots[want] = moved
+			err := bt.Put("SET", key2, []byte("v"))
+			c.slots[want] = n1
+			s.Count(fmt.Sprintf("batch_pair_same_%v", same))
+			if err != nil || len(bt.index) != 2 {
+				s.Violate("site-unit-refused", fmt.Sprintf("Batch.Put refused SET %q after SET %q: %v", key2, key, err), map[string]interface{}{"site": "Batch.Put", "key_hex": hx, "key2_hex": vfutil.Hex(key2)})
+			} else if second := bt.batches[bt.index[1]].node; (same && second != first) || (!same && addr(second) != int(vfC11Slot(key2))) {
+				s.Violate("site-pair", fmt.Sprintf("Batch.Put: SET %q landed on node %d; after the slot moved, SET %q (same HASH_SLOT = %v, slot %d) landed on node %d: commands of one slot of one batch must stay on the first node, others go to their slot's node", key, addr(first), key2, same, vfC11Slot(key2), addr(second)),
+					map[string]interface{}{"site": "Batch.Put", "key_hex": hx, "key2_hex": vfutil.Hex(key2), "same_slot": same, "first_node": addr(first), "second_node": addr(second)})
+			}
 		}
 		// txnBatcher.Put: recorded slot and node; admission of a second command
 		tb := &txnBatcher{cluster: c}
